@@ -1063,6 +1063,9 @@ impl<'a> CompactionIterator<'a> {
 		// Check if any version is REPLACE
 		// REPLACE semantics: delete all older versions regardless of retention
 		let has_set_with_delete = self.accumulated_versions.iter().any(|(key, _)| key.is_replace());
+		// Position of the newest REPLACE (versions are sorted newest first): only what lies
+		// behind it is erased by it. Versions written after the REPLACE are ordinary history.
+		let newest_replace_idx = self.accumulated_versions.iter().position(|(key, _)| key.is_replace());
 
 		// Track the visibility of the previous (newer) version we processed.
 		// Used to detect when a newer version supersedes an older one.
@@ -1155,8 +1158,10 @@ impl<'a> CompactionIterator<'a> {
 			} else if is_hard_delete {
 				// Older DELETE: always stale (only latest tombstone matters)
 				true
-			} else if has_set_with_delete && !is_replace {
-				// REPLACE found: all older non-REPLACE versions are stale
+			} else if has_set_with_delete
+				&& !is_replace && newest_replace_idx.is_some_and(|r| i > r)
+			{
+				// REPLACE found: all non-REPLACE versions older than it are stale
 				true
 			} else {
 				// Older PUT: check versioning and retention
